@@ -16,7 +16,7 @@ META = {
             "and of the parts of the EmmyLua doc lexer / string decoder that read its output. Theorems for ALL names, values, "
             "descriptions and schemas: an emitted string literal is read by the lexer as exactly one closed string token, contains no "
             "raw quote / line break / NUL and decodes back to the value; a sanitised type name is read as exactly one name token; "
-            "description lines contain no line break and never start a tag; every type text is in the grammar in which `?` and `[]` "
+            "description lines contain no line break and never start a tag, and the first non-blank line of a field description never continues the preceding tag; every type text is in the grammar in which `?` and `[]` "
             "only follow an atom (unions parenthesised); every line of the output has one of the seven well-formed shapes; the "
             "reported root type is declared; the walker terminates on every schema ($ref is never followed). Tie: model output = "
             "implementation output on generated schemas (evaluated in Coq). Search: real converter + real LuaParser oracle.",
@@ -27,7 +27,7 @@ META = {
 }
 
 THEOREMS = [("string_literal_one_token", "theorem"), ("string_literal_clean", "theorem"), ("string_literal_roundtrip", "theorem"),
-            ("old_quote_refuted", "refutation"), ("type_name_one_token", "theorem"), ("doc_lines_ok", "theorem"),
+            ("old_quote_refuted", "refutation"), ("type_name_one_token", "theorem"), ("doc_lines_ok", "theorem"), ("field_description_guarded", "theorem"),
             ("field_line_ok", "theorem"), ("class_line_ok", "theorem"), ("alias_lines_ok", "theorem"),
             ("resolve_type_wf", "theorem"), ("optional_binds_whole_union", "theorem"),
             ("convert_lines_ok", "theorem"), ("convert_declares_root", "theorem"), ("convert_total", "theorem"),
